@@ -20,7 +20,7 @@ INFO = dict(
               'that was handed TimeoutError at time tc no write containing its marker happens at a time > tc; for ThriftMux, if the request was '
               'written before tc and the connection is still open, a Tdiscarded frame naming exactly its tag is written (and none for requests '
               'never written).',
-  bounds={'quick': 'one hop per scenario, <= 2 calls', 'thorough': 'same scenarios with wider symbolic ranges and 3 calls in the queue scenarios'},
+  bounds={'quick': 'one hop per scenario (client open, pool queue, second connect, mux send queue behind a blocked write, own blocked write, on the wire), <= 2 calls', 'thorough': 'as quick plus two calls waiting in the pool queue with independent symbolic time-outs'},
   outside=['several slow hops at once', 'the Kafka stack'],
   stubs=['as C01', 'fake sendall may block for a symbolic duration (back-pressure) in the send-queue scenario',
          'pool max_watermark=1 through the public builder ReplaceRole() in the pool-queue scenario'],
@@ -36,6 +36,8 @@ def jobs(tier):
     js.append(dict(name='%s-open-wait' % k, stack=k, sc='open', cost=100))
   js.append(dict(name='T-pool-queue', stack='T', sc='poolq', cost=2000, shards=8, shard_depth=3))
   js.append(dict(name='T-connect-wait', stack='T', sc='connect', cost=1000, shards=8, shard_depth=3))
+  if tier != 'quick':
+    js.append(dict(name='T-pool-queue-two-waiters', stack='T', sc='poolq', waiters=2, cost=20000, shards=32, shard_depth=5))
   js.append(dict(name='M-send-queue', stack='M', sc='sendq', cost=1000, shards=8, shard_depth=3))
   js.append(dict(name='M-on-the-wire', stack='M', sc='wire', cost=500, shards=4, shard_depth=2))
   js.append(dict(name='M-own-write-blocked', stack='M', sc='ownwrite', cost=500, shards=4, shard_depth=2))
@@ -97,8 +99,14 @@ def make_body(job):
       # the second call has its own (symbolic) timeout and waits in the pool queue behind the first
       bq = c._dispatcher.DispatchMethodCall('hi', ('MARKB',), {}, timeout=T)
       hdecide(g + T < dA)
+      cq = None
+      if job.get('waiters', 1) == 2:
+        T2 = fresh_real('T2', 0, 6, lo_strict=True)
+        cq = c._dispatcher.DispatchMethodCall('hi', ('MARKC',), {}, timeout=T2)
+        hdecide(g + T2 < dA)
       gevent.sleep(40)
       judge(e, 'first', 'MARKA', a, script)
+      if cq is not None: judge(e, 'queued2', 'MARKC', cq, script)
       out = judge(e, 'queued', 'MARKB', bq, script)
       if out == 'timeout-unsent': cover('T:timeout-in-pool-queue')
       check('no-greenlet-error', not vtime.ERRORS)
